@@ -55,8 +55,13 @@ def check(R):
         skr = R.body(RC + '::set_keep_retry')
         for fld, src in (('next_max_seen_attr_change_id', 'max_seen_attr_change_id'), ('next_max_seen_event_number', 'max_seen_event_number'), ('next_reported_at', 'reported_at')):
             ws = [s for i, j, s in skr.field_writes(fld + ':' + RC)]
-            okw = len(ws) == 1 and mentions(prims.sources(skr, ws[0][1]['a'][0]), src) if ws and ws[0][1].get('op') == 'use' else False
-            R.expect('P10', skr.fn, f'{fld} is restored from the subscription\'s last reported {src}', okw, f'{fld} <= sub.{src}', f'{len(ws)} write(s), not from sub.{src}')
+            vs_ = prims.sources(skr, ws[0][1]['a'][0]) if ws and ws[0][1].get('op') == 'use' else set()
+            # restored from the last SUCCESSFUL report and from nothing else: in particular not from this attempt's own values
+            # (the context's next_* fields - `next_reported_at` is "now"), on no path
+            own = sorted(f for f in src_fields(vs_) if f.endswith(':' + RC))
+            okw = len(ws) == 1 and mentions(vs_, src) and not own
+            R.expect('P10', skr.fn, f'{fld} is restored from the subscription\'s last reported {src} and from nothing else', okw, f'{fld} <= sub.{src}',
+                     f'{len(ws)} write(s); value sources include {own or "no " + src}: after a failed attempt the subscription no longer looks exactly as it did before it')
         sk = R.body(RC + '::set_keep')
         R.expect('P1', sk.fn, 'set_keep only sets the keep flag', sk.fw_summary <= {'keep:' + RC}, 'ok', f'writes {sorted(sk.fw_summary)}')
         for fld in ('next_max_seen_attr_change_id', 'next_max_seen_event_number'):
@@ -112,12 +117,13 @@ def check(R):
                 for op, edge in (('Ne', 'f'), ('Eq', 't'), ('Lt', 'f'), ('Gt', 'f')):
                     for bb, te_, fe_ in prims.cmp_guard_edges(pg, op, lambda s: mentions(s, 'subscriptions_count'), lambda s: any(c.endswith('::len') for c in src_calls(s))):
                         e |= (te_ if edge == 't' else fe_)
-                for t in pg.calls('core::option::Option::is_none', 'core::option::Option::is_some'):
-                    if mentions(prims.sources(pg, t.d['a'][0]), 'reporting'):
-                        tr_ = prims.track_result(F, pg, t)
-                        e |= tr_.success if t.d['f'].endswith('is_none') else tr_.failure
+                # NOT sufficient on its own: `reporting.is_none()` - a subscription whose PRIMING is in flight lives in the ReportContext held
+                # by InteractionModel::subscribe, neither in the table nor in `reporting`; only the counter accounts for both
+                if not e:
+                    from facts import GuardMissing
+                    raise GuardMissing(f'{pg.fn}: no comparison of subscriptions_count with the table length')
                 return e
-            R.cut('P2', pg, 'purge / clear the recorded changes', acts, 'no subscription is outside the table', all_in_table)
+            R.cut('P2', pg, 'purge / clear the recorded changes', acts, 'no subscription is outside the table - neither being reported on nor being primed (subscriptions_count == subscriptions.len())', all_in_table)
         mins = [t for t in pg.calls() if t.d.get('f', '').endswith('Iterator::min')]
         R.expect('P10', pg.fn, 'the purge threshold is the minimum watermark of the table', len(mins) == 1, 'min()', f'{len(mins)} min() calls')
         mc = [b for b in F.nested(pg.fn) if prims.field_read_locals(b, 'max_seen_attr_change_id:' + SUB + 'Subscription')]
